@@ -50,9 +50,44 @@ Proof.
   apply G. constructor.
 Qed.
 
-(* on key columns where the comparator is transitive (homogeneous columns), every earlier row sorts before every later one *)
-Lemma esort_strongly_sorted : forall ob l, Relations_1.Transitive (ob_le ob) -> StronglySorted (ob_le ob) (esort ob l).
-Proof. intros ob l T. apply Sorted_StronglySorted; auto. apply esort_sorted. Qed.
+(* The comparator is NOT transitive on arbitrary rows (numbers compare numerically, anything else lexically: "10" < "1x" < "2"
+   but "2" < "10"), so transitivity is a hypothesis about the rows at hand: it holds on homogeneous key columns (all integers,
+   or all non-numeric strings).  trans_onb decides it for a given list. *)
+Definition trans_on (ob : list (var * bool)) (l : list mu) : Prop :=
+  forall a b c, In a l -> In b l -> In c l -> ob_le ob a b -> ob_le ob b c -> ob_le ob a c.
+Definition ob_leb (ob : list (var * bool)) (a b : mu) : bool := match erow_cmp ob a b with Gt => false | _ => true end.
+Definition trans_onb (ob : list (var * bool)) (l : list mu) : bool :=
+  forallb (fun a => forallb (fun b => forallb (fun c => negb (ob_leb ob a b && ob_leb ob b c) || ob_leb ob a c) l) l) l.
+Lemma ob_leb_spec : forall ob a b, ob_leb ob a b = true <-> ob_le ob a b.
+Proof. intros. unfold ob_leb, ob_le. destruct (erow_cmp ob a b); split; intro H; try reflexivity; try discriminate; exfalso; apply H; reflexivity. Qed.
+Lemma trans_onb_spec : forall ob l, trans_onb ob l = true -> trans_on ob l.
+Proof.
+  intros ob l H a b c Ha Hb Hc L1 L2. unfold trans_onb in H. rewrite forallb_forall in H. specialize (H a Ha).
+  rewrite forallb_forall in H. specialize (H b Hb). rewrite forallb_forall in H. specialize (H c Hc).
+  apply ob_leb_spec in L1. apply ob_leb_spec in L2. rewrite L1, L2 in H. cbn in H. apply ob_leb_spec. exact H.
+Qed.
+Lemma trans_on_perm : forall ob l l', Permutation l l' -> trans_on ob l -> trans_on ob l'.
+Proof.
+  intros ob l l' P T a b c Ha Hb Hc. apply T; eapply Permutation_in; try (apply Permutation_sym; exact P); assumption.
+Qed.
+
+Lemma Sorted_SS_on {A} (R : A -> A -> Prop) : forall l, Sorted R l ->
+  (forall a b c, In a l -> In b l -> In c l -> R a b -> R b c -> R a c) -> StronglySorted R l.
+Proof.
+  induction 1 as [|a r S IH Hd]; intros T; constructor.
+  - apply IH. intros x y z Hx Hy Hz. apply T; right; auto.
+  - assert (SSr : StronglySorted R r) by (apply IH; intros x y z Hx Hy Hz; apply T; right; auto).
+    destruct r as [|b r']; [constructor|]. inversion Hd as [|? ? Rab]; subst. inversion SSr as [|? ? _ Fb]; subst.
+    constructor; [exact Rab|]. rewrite Forall_forall in *. intros c Hc.
+    apply (T a b c); [left; auto | right; left; auto | right; right; auto | exact Rab | apply Fb; exact Hc].
+Qed.
+
+(* on rows where the comparator is transitive, every earlier row sorts before every later one *)
+Lemma esort_strongly_sorted : forall ob l, trans_on ob l -> StronglySorted (ob_le ob) (esort ob l).
+Proof.
+  intros ob l T. apply Sorted_SS_on; [apply esort_sorted|].
+  intros a b c Ha Hb Hc. apply T; (eapply Permutation_in; [apply esort_perm|]); eassumption.
+Qed.
 
 (* ---- DISTINCT on the projected columns ---- *)
 Lemma dedup_map_commute {A B} (f : A -> B) (eqa : A -> A -> bool) (eqb' : B -> B -> bool) :
@@ -232,10 +267,10 @@ Proof.
 Qed.
 
 (* the sequence finalize_select renders is sorted by the keys: every earlier row sorts before every later one, on key
-   columns where the comparator is transitive (homogeneous columns: all integers, or all non-numeric strings) *)
+   columns where the comparator is transitive on the solutions at hand (homogeneous columns: all integers, or all non-numeric strings) *)
 Theorem answer_sorted : forall s rows, plain_sel s = true ->
   let ob := match s with Sel _ _ _ _ ob _ => ob end in
-  Relations_1.Transitive (ob_le ob) ->
+  trans_on ob rows ->
   exists seq, finalize_select s rows = render (columns s) seq /\ StronglySorted (ob_le ob) seq.
 Proof.
   intros [d pr w gb ob lim] rows PS ob' T. unfold plain_sel in PS. subst ob'.
@@ -257,8 +292,8 @@ Definition apply_limit_rows {A} (l : option N) (r : list A) : list A :=
 Lemma firstn_map {A B} (f : A -> B) : forall n l, firstn n (map f l) = map f (firstn n l).
 Proof. induction n; intros [|x l]; cbn; auto. f_equal. apply IHn. Qed.
 
-Lemma ob_le_nil_trans : Relations_1.Transitive (ob_le []).
-Proof. intros a b c _ _. unfold ob_le. cbn. discriminate. Qed.
+Lemma ob_le_nil_trans : forall l, trans_on [] l.
+Proof. intros l a b c _ _ _ _ _. unfold ob_le. cbn. discriminate. Qed.
 
 (* SELECT [DISTINCT] cols .. [ORDER BY keys] [LIMIT n] without aggregates: what finalize_select returns is the first
    min(n, total) rows of SOME sequence that (i) is a permutation of the algebra's full answer (before the cut) and
@@ -266,7 +301,7 @@ Proof. intros a b c _ _. unfold ob_le. cbn. discriminate. Qed.
 Theorem answer_limit : forall s rows rows', noagg_sel s = true -> rows ≡ₚ rows' ->
   let ob := match s with Sel _ _ _ _ ob _ => ob end in
   let lim := match s with Sel _ _ _ _ _ l => l end in
-  Relations_1.Transitive (ob_le ob) ->
+  trans_on ob rows ->
   exists seq,
     finalize_select s rows = apply_limit_rows lim (render (columns s) seq) /\
     render (columns s) seq ≡ₚ render (columns s) (modifiers (nolimit_sel s) rows') /\
